@@ -194,6 +194,11 @@ theorem erase_val_indep (e : X) : (∀ n n', erase (e.val n) = erase (e.val n'))
       intro n n'; simp only [X.val, mk, erase, eraseL]
       rw [erase_tnval tn (n + 2) (n' + 2)]
     exact ⟨h, fun n n' => by have := h n n'; simp only [X.val] at this; simp only [X.items, eraseL, this]⟩
+  | alignT tn =>
+    have h : ∀ n n', erase ((X.alignT tn).val n) = erase ((X.alignT tn).val n') := by
+      intro n n'; simp only [X.val, mk, erase, eraseL]
+      rw [erase_tnval tn (n + 2) (n' + 2)]
+    exact ⟨h, fun n n' => by have := h n n'; simp only [X.val] at this; simp only [X.items, eraseL, this]⟩
 
 open PycModel.FullExpr PycModel.View in
 /-- **Redundant parentheses change nothing but coordinates, for the whole expression grammar**
